@@ -139,6 +139,14 @@ impl PatchArchiveBuilder {
             0x00
         };
 
+        // block_count is a u16 in the header
+        let block_count = u16::try_from(blocks.len()).map_err(|_| {
+            PatchArchiveError::InvalidHeader(format!(
+                "{} blocks do not fit the 16-bit block count",
+                blocks.len()
+            ))
+        })?;
+
         // Write header
         let header = PatchArchiveHeader {
             magic: *b"PA",
@@ -147,7 +155,7 @@ impl PatchArchiveBuilder {
             old_key_size: STANDARD_KEY_SIZE,
             patch_key_size: STANDARD_KEY_SIZE,
             block_size_bits: self.block_size_bits,
-            block_count: blocks.len() as u16,
+            block_count,
             flags,
         };
         header.validate()?;
